@@ -156,8 +156,12 @@ func (t *Translator) processStreamLine(line string, state *StreamingState, w htt
 		return nil
 	}
 
+	// a delta may carry text and the start of a tool call at once (backends that emit a whole
+	// turn per chunk): the text first, then the tool calls, neither swallows the other
 	if content, ok := delta["content"].(string); ok && content != "" {
-		return t.handleContentDelta(content, state, w, rc)
+		if err := t.handleContentDelta(content, state, w, rc); err != nil {
+			return err
+		}
 	}
 
 	if toolCalls, ok := delta["tool_calls"].([]interface{}); ok {
